@@ -3480,11 +3480,9 @@ def C11(ctx, model, tier, models):
 
 # ============================================================================= C12 share
 
-def share_lemmas(ctx, v):
+def _share_append_lemma(ctx, v):
+    """share ROOT.H: push (rcu closure lemma), then len == 1 test. Returns the key of the list cell."""
     r = v.root
-    h = v.by_role("UP")[0]
-    d = v.by_role("DOWN")[0]
-    # ROOT.H: push (rcu closure lemma), then len == 1 test, then xor
     probs = []
     list_k = None
     for p in returning(v.arm(r, "Handshake")):
@@ -3509,6 +3507,14 @@ def share_lemmas(ctx, v):
             probs.append("subscription not decided by len == 1 evaluated after the push")
     ctx.ob("GRD-len", v.key(r, "Handshake", "GRD-len", "subscribe-on-0-to-1"), not probs and list_k is not None,
            "the sink is pushed first; upstream is subscribed iff the list then has exactly one element" if not probs else "; ".join(sorted(set(probs))), v.loc(r))
+    return list_k
+
+
+def share_lemmas(ctx, v):
+    r = v.root
+    h = v.by_role("UP")[0]
+    d = v.by_role("DOWN")[0]
+    list_k = _share_append_lemma(ctx, v)
     ctx.ob("GRD-len", v.key(r, "Handshake", "GRD-len", "guard"), all(_share_len_guard(v, b, e) for e, b in subscribe_sends(v)) and len(subscribe_sends(v)) == 1, "single subscribe site, guarded", v.loc(r))
     # REL-xor from C01
     kinds, probs = set(), []
@@ -4941,9 +4947,13 @@ for _pid in ("C01", "C02", "C03", "C04", "C05", "C08", "C09", "C10", "C11", "C14
     _wrap(_pid, lemma_state_per_subscription)
 for _pid in ("C03", "C04", "C09", "C14", "C11", "C08"):
     _wrap(_pid, lemma_store_every_greeting)
-for _pid in ("C02", "C05", "C11"):
+for _pid in ("C02", "C04", "C05", "C11"):
     # C05: an output that completes while an inner it has subscribed is still alive cannot deliver that inner's later failure
+    # C04: that inner outlives the output undisposed, and when it ends flatten pulls the outer source that ended long ago
     _wrap(_pid, lambda ctx, v: lemma_flatten_inner_indicator(ctx, v) if v.family == "flatten" else None)
+# C04 (round 9, T05b): "each upstream is subscribed at most once" rests, for share, on the append being exact - a closure that can
+# leave the list at length 1 for a second subscription makes share subscribe its upstream again and orphan the first subscription
+_wrap("C04", lambda ctx, v: _share_append_lemma(ctx, v) if v.family == "share" else None)
 def _take_flag_arms(ctx, v):
     if v.family == "take":
         d = v.by_role("DOWN")[0]
@@ -4959,7 +4969,7 @@ _ADD = {
  "C01": " Added after the seeded rounds: combine's Data / completion and merge's completion to the sink are behind counters whose reaching the bound implies that every member greeted (GRD-once:nothing-before-all-greeted); all state cells are per subscription (SCP-sub premise).",
  "C02": " Added after the seeded rounds: take's end flag is raised first by both disposal arms; flatten's inner cell must not read 'no inner' while a new inner is being subscribed (ORD:inner-marked-active-at-subscribe) - its first-subscription instance fails on this tree: recorded finding KF-10 (a first, late-greeting inner is invisible to the outer's completion test).",
  "C03": " Added after the seeded rounds: merge's over-flag is raised first on sink Error, sink Terminate and member Error; every greeting of an upstream is recorded in the cell the talkback reads; all state cells are per subscription.",
- "C04": " Added after the seeded rounds: over-flag writers (merge), end-flag arms (take), every-greeting-recorded (ORD-store-pub), state-per-subscription premise. Rounds 5-7: share's sink list is not emptied while the terminal fan-out is still serving sinks unless the talkback's upstream Terminate is tied to having removed its own sink (ORD-clear-emit:list-not-empty-during-terminal-fanout); a relay skipped because the talkback cell was seen empty is accepted only where every clear of that cell is legitimate (tb_clears_legit).",
+ "C04": " Added after the seeded rounds: over-flag writers (merge), end-flag arms (take), every-greeting-recorded (ORD-store-pub), state-per-subscription premise. Rounds 5-7: share's sink list is not emptied while the terminal fan-out is still serving sinks unless the talkback's upstream Terminate is tied to having removed its own sink (ORD-clear-emit:list-not-empty-during-terminal-fanout); a relay skipped because the talkback cell was seen empty is accepted only where every clear of that cell is legitimate (tb_clears_legit). Round 9: flatten's ORD-pending-inner also runs here (an inner subscribed while the cell reads 'no inner' outlives an output that completes meanwhile, undisposed, and the ended outer is pulled when it ends; the first-subscription instance is the recorded finding KF-10) and so does share's append-closure lemma (GRD-len:subscribe-on-0-to-1: 'subscribed at most once' rests on the rcu closure appending exactly this sink).",
  "C05": " Added after the seeded rounds: share's Error arm must evaluate the fan-out loop on every path, unconditionally. Round 6: flatten must not complete while an inner it has subscribed is alive (ORD-pending-inner; the first-subscription instance is KF-10, recorded here too).",
  "C07": " Added after the seeded rounds: every cell of the five operators is per subscription; take's talkback raises the end flag first in both disposal arms. Paths that find the output already over and do nothing are not counted. Rounds 5-6: the claim may also be a hand-written compare_exchange loop (cas-claim clauses) or a fetch_update on a counter of remaining slots (count-down dual).",
  "C09": " Added after the seeded rounds: every member greeting records its talkback in the cell the sink-facing talkback reads (ORD-store-pub:every-greeting-recorded).",
